@@ -246,7 +246,7 @@ func vfGenRound(t *rapid.T, prev *vfRound, earlier []uint64) vfRound {
 	}
 	r.Targets = append(r.Targets, vfTargetRule{Kind: "zero"})
 	r.Result = rapid.SampledFrom([]string{"accept", "accept", "accept", "accept", "orphan", "error"}).Draw(t, "result")
-	switch rapid.IntRange(0, 17).Draw(t, "event") {
+	switch rapid.IntRange(0, 19).Draw(t, "event") {
 	case 0:
 		r.Event = "tip-better"
 	case 1:
@@ -259,6 +259,26 @@ func vfGenRound(t *rapid.T, prev *vfRound, earlier []uint64) vfRound {
 		r.Event = "tip-moved" // a not-better notification, then the chain moves past the parent: the waiter cannot be re-armed
 	case 5, 6:
 		r.Event = "restart" // Stop()+Start() right after the template was handed out; nothing else special
+	case 7, 8:
+		r.Event = "stop-holding" // Stop() while the miner holds a block back until its timestamp
+	}
+	if r.Event == "stop-holding" {
+		// the template's own slot is eligible and lies one slot ahead: the block is found at once and held back
+		r.Height = rapid.SampledFrom([]uint64{70, 71, 9100}).Draw(t, "shHeight")
+		for _, h := range earlier {
+			if h == r.Height {
+				r.Height += 100
+			}
+		}
+		r.T0OffSec = rapid.IntRange(2, 5).Draw(t, "shT0")
+		r.Targets = []vfTargetRule{{Kind: "zero"}}
+		for i := range r.Proofs {
+			if r.Proofs[i] == "wrongx" || r.Proofs[i] == "wrongkey" {
+				r.Proofs[i] = "ok"
+			}
+		}
+		r.Proofs[rapid.IntRange(0, 5).Draw(t, "shOk")] = "ok"
+		r.DelayMs = rapid.SampledFrom([]int{900, 1300, 1800, 2500}).Draw(t, "shDelay")
 	}
 	if r.Event == "tip-better" || r.Event == "stop" || r.Event == "tip-moved" {
 		// the first eligible slot lies so far ahead that the miner cannot have reached it when the event arrives
@@ -347,7 +367,10 @@ type vfRoundRT struct {
 	ended    bool // the miner asked for another template (or was stopped) after this one
 	stopCall time.Time
 	stopRet  time.Time
-	tcache   map[int]*big.Int
+	// disturbed: a Stop() of the harness fell into this round (it may not be the round the stop was generated for:
+	// the miner may have finished that one and asked for the next template in the meantime)
+	disturbed bool
+	tcache    map[int]*big.Int
 }
 
 type vfWorld struct {
@@ -890,6 +913,11 @@ func vfRunMiner(fx *vfFix, mi int, script vfMinerScript) vfMinerOutcome {
 			r.stopCall = tCall
 			w.mu.Unlock()
 		}
+		w.mu.Lock()
+		if w.cur != nil {
+			w.cur.disturbed = true
+		}
+		w.mu.Unlock()
 		go func() { res <- m.Stop() }()
 		select {
 		case <-res:
@@ -897,6 +925,9 @@ func vfRunMiner(fx *vfFix, mi int, script vfMinerScript) vfMinerOutcome {
 			return vlib.Failf("miner-stop-did-not-return", "miner %d: Stop() has not returned after 90 s:\n%s", mi, vfStacks("pocminer/miner.(*PoCMiner)"))
 		}
 		w.mu.Lock()
+		if w.cur != nil {
+			w.cur.disturbed = true
+		}
 		w.stops = append(w.stops, [2]time.Time{time.Now(), {}})
 		if r != nil {
 			r.stopRet = time.Now()
@@ -914,7 +945,7 @@ loop:
 	for {
 		select {
 		case r := <-w.roundStart:
-			if r.spec.Event == "stop" || r.spec.Event == "restart" {
+			if r.spec.Event == "stop" || r.spec.Event == "restart" || r.spec.Event == "stop-holding" {
 				time.Sleep(time.Duration(r.spec.DelayMs) * time.Millisecond)
 				if f := stop(r); f != nil {
 					out.fail = f
@@ -993,7 +1024,7 @@ loop:
 				heightDone = true
 			}
 		}
-		plain := (r.spec.Event == "" || r.spec.Event == "tip-notbetter") && !r.poisoned && len(r.elig) > 0 && !heightDone
+		plain := (r.spec.Event == "" || r.spec.Event == "tip-notbetter") && !r.poisoned && len(r.elig) > 0 && !heightDone && !r.disturbed
 		if plain && r.ended && !out.timedOut && len(r.blocks) == 0 && r.asked {
 			out.fail = vlib.Failf("eligible-block-not-submitted", "%s: %d eligible proofs, first eligible slot +%d, the miner moved on to another template without submitting a block", who, len(r.elig), r.firstEligible(64))
 			return out
@@ -1075,7 +1106,7 @@ func vfC08Run(c vfC08Case, ctx *vlib.Ctx) *vlib.Failure {
 
 var vfC08Spec = vlib.Spec[vfC08Case]{
 	Prop: "C08", Name: "miner-rounds", NoShrink: true, Min: 1,
-	Rule: "8-12 started miners per case, each with 1-4 scripted templates: height (plot filter on/off, heights of earlier rounds again), template time -15..+4 s from now, per fixture key a real BL=24 proof offered as ok / unbound / lookup error / altered x / other key's proof / absent, target function per slot from {unbeatable, zero, quality of the best or second-best eligible proof -1/0/+1}, ProcessBlock answer accept/orphan/error, events {better tip, not-better tip, not-better tip after which the waiter cannot be re-armed, Stop()+Start() with the eligible slot far ahead, Stop()+Start() right after the template, best block switched before the round}; oracle on every block handed to ProcessBlock: offered without error, verifies for the template challenge (with the height's plot filter), bound, timestamp = template time + k*3 s, quality > target(ts), header target = target(ts), no eligible proof better at that slot, no earlier slot eligible, signature verifies under the block's key, coinbase of that key, entered after its timestamp, at most one slot ahead when signed, height never accepted before, not after Stop() returned, none for rounds whose first eligible slot was out of reach when a better tip/Stop arrived or whose chain had switched; a plain round the miner left for another template without a block is a violation; non-trivial = a block with >=2 eligible proofs at a later slot than the template's, or a round with an event; distinct = distinct case JSON",
+	Rule: "8-12 started miners per case, each with 1-4 scripted templates: height (plot filter on/off, heights of earlier rounds again), template time -15..+4 s from now, per fixture key a real BL=24 proof offered as ok / unbound / lookup error / altered x / other key's proof / absent, target function per slot from {unbeatable, zero, quality of the best or second-best eligible proof -1/0/+1}, ProcessBlock answer accept/orphan/error, events {better tip, not-better tip, not-better tip after which the waiter cannot be re-armed, Stop()+Start() with the eligible slot far ahead, Stop()+Start() right after the template, Stop() while a block found one slot ahead is held back until its timestamp, best block switched before the round}; oracle on every block handed to ProcessBlock: offered without error, verifies for the template challenge (with the height's plot filter), bound, timestamp = template time + k*3 s, quality > target(ts), header target = target(ts), no eligible proof better at that slot, no earlier slot eligible, signature verifies under the block's key, coinbase of that key, entered after its timestamp, at most one slot ahead when signed, height never accepted before, not after Stop() returned, none for rounds whose first eligible slot was out of reach when a better tip/Stop arrived or whose chain had switched; a plain round the miner left for another template without a block is a violation; non-trivial = a block with >=2 eligible proofs at a later slot than the template's, or a round with an event; distinct = distinct case JSON",
 	Gen:  vfGenC08, Run: vfC08Run,
 }
 
